@@ -20,6 +20,35 @@ fn unsupported_type(
     )
 }
 
+/// `IsVariableUsageAllowed` for a variable used as a list item or as an input object field.
+/// Returns `true` for anything that is not a defined variable.
+fn nested_variable_usage_allowed(
+    location_ty: &ast::Type,
+    location_has_default: bool,
+    value: &ast::Value,
+    var_defs: &[Node<ast::VariableDefinition>],
+) -> bool {
+    let ast::Value::Variable(name) = value else {
+        return true;
+    };
+    let Some(var_def) = var_defs.iter().find(|v| v.name == *name) else {
+        return true;
+    };
+    if location_ty.is_non_null() && !var_def.ty.is_non_null() {
+        let has_non_null_default = var_def
+            .default_value
+            .as_ref()
+            .is_some_and(|default| !default.is_null());
+        if !has_non_null_default && !location_has_default {
+            return false;
+        }
+        return var_def
+            .ty
+            .is_assignable_to(&location_ty.clone().nullable());
+    }
+    var_def.ty.is_assignable_to(location_ty)
+}
+
 pub(crate) fn validate_values(
     diagnostics: &mut DiagnosticList,
     schema: &crate::Schema,
@@ -192,6 +221,12 @@ pub(crate) fn value_of_correct_type(
                 let item_type = ty.same_location(ty.item_type().clone());
                 if type_definition.is_input_type() {
                     for v in li {
+                        if ty.is_list()
+                            && !nested_variable_usage_allowed(&item_type, false, v, var_defs)
+                        {
+                            unsupported_type(diagnostics, v, &item_type);
+                            continue;
+                        }
                         value_of_correct_type(diagnostics, schema, &item_type, v, var_defs);
                     }
                 } else {
@@ -268,7 +303,12 @@ pub(crate) fn value_of_correct_type(
                     let used_val = obj.iter().find(|(obj_name, ..)| obj_name == input_name);
 
                     if let Some((_, v)) = used_val {
-                        value_of_correct_type(diagnostics, schema, ty, v, var_defs);
+                        if !nested_variable_usage_allowed(ty, f.default_value.is_some(), v, var_defs)
+                        {
+                            unsupported_type(diagnostics, v, ty);
+                        } else {
+                            value_of_correct_type(diagnostics, schema, ty, v, var_defs);
+                        }
                     }
                 })
             }
